@@ -76,3 +76,35 @@ pub proof fn lemma_div_lt(x: int, a: int, b: int)
     assert(q < a) by(nonlinear_arith) requires b * q <= x, x < a * b, 0 < b;
     assert(q >= 0) by(nonlinear_arith) requires x == b * q + x % b, 0 <= x, 0 <= x % b < b, 0 < b;
 }
+
+// ---- operand-order / association kit: proofs must not depend on how a product is written ------
+// every way of writing the product of three factors equals a * (b * c); pairs commute
+pub proof fn lemma_mul3_forms(a: int, b: int, c: int)
+    ensures
+        (a * b) * c == a * (b * c), (b * a) * c == a * (b * c), c * (a * b) == a * (b * c), c * (b * a) == a * (b * c),
+        (a * c) * b == a * (b * c), (c * a) * b == a * (b * c), b * (a * c) == a * (b * c), b * (c * a) == a * (b * c),
+        (b * c) * a == a * (b * c), (c * b) * a == a * (b * c), a * (c * b) == a * (b * c),
+        a * b == b * a, a * c == c * a, b * c == c * b,
+{
+    assert((a * b) * c == a * (b * c) && (b * a) * c == a * (b * c) && c * (a * b) == a * (b * c) && c * (b * a) == a * (b * c)) by(nonlinear_arith);
+    assert((a * c) * b == a * (b * c) && (c * a) * b == a * (b * c) && b * (a * c) == a * (b * c) && b * (c * a) == a * (b * c)) by(nonlinear_arith);
+    assert((b * c) * a == a * (b * c) && (c * b) * a == a * (b * c) && a * (c * b) == a * (b * c)) by(nonlinear_arith);
+    assert(a * b == b * a && a * c == c * a && b * c == c * b) by(nonlinear_arith);
+}
+
+// partial products of non-negative factors are non-negative and bounded by the full product
+// (whenever the omitted factor is >= 1): no intermediate overflow, whatever the association
+pub proof fn lemma_mul3_bounds(a: int, b: int, c: int)
+    requires 0 <= a, 0 <= b, 0 <= c,
+    ensures
+        0 <= a * b, 0 <= a * c, 0 <= b * c, 0 <= a * (b * c),
+        c >= 1 ==> a * b <= a * (b * c),
+        b >= 1 ==> a * c <= a * (b * c),
+        a >= 1 ==> b * c <= a * (b * c),
+{
+    assert(0 <= a * b && 0 <= a * c && 0 <= b * c) by(nonlinear_arith) requires 0 <= a, 0 <= b, 0 <= c;
+    assert(0 <= a * (b * c)) by(nonlinear_arith) requires 0 <= a, 0 <= b * c;
+    assert(c >= 1 ==> a * b <= a * (b * c)) by(nonlinear_arith) requires 0 <= a, 0 <= b, 0 <= c;
+    assert(b >= 1 ==> a * c <= a * (b * c)) by(nonlinear_arith) requires 0 <= a, 0 <= b, 0 <= c;
+    assert(a >= 1 ==> b * c <= a * (b * c)) by(nonlinear_arith) requires 0 <= a, 0 <= b, 0 <= c;
+}
